@@ -16,7 +16,7 @@ R8 bounds are inclusive (operators of the limit checks)
 from . import util, guards, aff
 from .aff import Aff, PathExec
 from .cfg import cfg
-from .common import norm
+from .common import norm, family
 from .sym import sym, short, mentions, subexprs
 from .c10 import strip_bb
 from .c03 import upvar_field
@@ -100,7 +100,7 @@ def run_r1(ctx, rule):
         ("flussab_cnf::cnf::Parser::new", "usize", "isize"): "var_count <= L::MAX_DIMACS <= isize::MAX (token::var_count)",
         ("flussab_cnf::wcnf::Parser::new", "usize", "isize"): "same",
         ("flussab_cnf::gcnf::Parser::new", "usize", "isize"): "same",
-        ("flussab_cnf::token::var_count::{closure#1}", "isize", "usize"): "the constant L::MAX_DIMACS (positive)",
+        ("flussab_cnf::token::var_count", "isize", "usize"): "the constant L::MAX_DIMACS (positive)",
         ("flussab::text::signed_ascii_digits_multi", "u32", "i32"): "kernel value of at most 7 digits (< 10^7)",
         ("flussab_aiger::token::binary_uint", "u8", "usize"): "widening",
         ("flussab::text::swar_ascii_digits_u64_le", "u64", "u32"): "the kernel's value of at most 8 decimal digits (< 10^8 < 2^32) after the final >> 32",
@@ -125,7 +125,7 @@ def run_r1(ctx, rule):
                     lossy = w[to] < w[fr] or (fr[0] != to[0] and not (fr[0] == "u" and w[to] > w[fr]))
                     if not lossy:
                         continue
-                    key = (nid, fr, to)
+                    key = (family(nid), fr, to)
                     seen.add(key)
                     rule.check(key in listed, "%s/cast-%s-%s" % key, "lossy cast %s -> %s in %s is listed with its bound (%s)" % (fr, to, short(nid), listed.get(key, "NOT LISTED")), f.loc(bi))
 
@@ -145,10 +145,12 @@ def run_r2(ctx, rule):
         sy = sym(f)
         adt = "flussab_cnf::%s::Parser" % m
         n = 0
+        stored = set()
         for f2, bi, si, name in util.field_stores(facts, adt):
             if f2 is not f or name not in LIMIT_FIELDS or si is None:
                 continue
             n += 1
+            stored.add(name)
             hf = LIMIT_FIELDS[name]
             fs = guards.facts_at(f, bi)
             not_ignored = any(fa[0] == "bool" and fa[2] is False and fa[1][0] == "f" and fa[1][2] == "ignore_header" for s0, fa in fs)
@@ -157,16 +159,17 @@ def run_r2(ctx, rule):
             e = sy.rvalue(f.blocks[bi]["stmts"][si]["rv"])
             if not name.endswith(("_is_hard", "_active")):
                 rule.check(mentions(e, lambda x: x[0] == "f" and x[2] == hf), "%s::new/%s/source" % (m, name), "%s: %s is taken from the header's %s (%s)" % (m, name, hf, sy.show(e)), f.loc(bi))
-        want = 6 if m == "gcnf" else 4
-        if n < want:
-            rule.bad("%s::new/limit-stores" % m, "%s: only %d limit installations found (expected %d)" % (m, n, want), kind="anchor-missing")
+        # (the clause limit may be a pair `clause_limit` + `clause_limit_active` or one `Option`)
+        need = {"lit_limit", "lit_limit_is_hard", "clause_limit"} | ({"group_limit", "group_limit_is_hard"} if m == "gcnf" else set())
+        if not need <= stored:
+            rule.bad("%s::new/limit-stores" % m, "%s: limit installations missing for %s" % (m, sorted(need - stored)), kind="anchor-missing")
         # defaults: hard limit = L::MAX_DIMACS, clause limit inactive
         for b in f.blocks:
             for s in b["stmts"]:
                 if s["k"] == "assign" and s["rv"]["k"] == "agg" and s["rv"].get("adt") == adt:
                     e = sy.rvalue(s["rv"])
                     vals = dict(zip(s["rv"]["fields"], e[3]))
-                    ok = vals.get("lit_limit", ("", ""))[0] == "c?" and "MAX_DIMACS" in str(vals.get("lit_limit")) and vals.get("clause_limit_active") == ("c", 0) and vals.get("lit_limit_is_hard") == ("c", 1)
+                    ok = vals.get("lit_limit", ("", ""))[0] == "c?" and "MAX_DIMACS" in str(vals.get("lit_limit")) and (vals.get("clause_limit_active") == ("c", 0) or (vals.get("clause_limit", ("",))[0] == "agg" and vals["clause_limit"][2] == "None")) and vals.get("lit_limit_is_hard") == ("c", 1)
                     rule.check(ok, "%s::new/defaults" % m, "%s: without header limits the literal limit is L::MAX_DIMACS (hard) and no clause limit is active" % m, f.loc())
 
 
@@ -452,13 +455,26 @@ def run_r8(ctx, rule):
     """the check closures of the bounded-result tokens: Ok only for value <= limit"""
     facts = ctx.facts
     targets = [
-        (TOK_A + "header_field::{closure#1}", TOK_A + "header_field", 3),
-        (TOK_A + "lit::{closure#1}", TOK_A + "lit", 3),
-        (TOK_A + "symbol_index::{closure#1}", TOK_A + "symbol_index", 3),
-        (TOK_C + "clause_group::{closure#1}", TOK_C + "clause_group", 2),
+        (TOK_A + "header_field", 3),
+        (TOK_A + "lit", 3),
+        (TOK_A + "symbol_index", 3),
+        (TOK_C + "clause_group", 2),
     ]
-    for cname, parent, limit_arg in targets:
-        ids = [i for i in facts.fns if norm(i) == cname]
+
+    def check_body(parent):
+        """the function of the token's family (itself or one of its closures) that returns Result::Ok(()) / Err: the check"""
+        out = []
+        for i, g in facts.fns.items():
+            if g.crate in ("ext", "promoted") or family(norm(i)) != parent:
+                continue
+            if any(s["k"] == "assign" and s["lhs"]["l"] == 0 and s["rv"]["k"] == "agg" and s["rv"].get("adt") == "core::result::Result" and s["rv"].get("variant") == "Ok" for b in g.blocks for s in b["stmts"]) and \
+               any(s["k"] == "assign" and s["rv"]["k"] == "agg" and s["rv"].get("adt") == "core::result::Result" and s["rv"].get("variant") == "Err" for b in g.blocks for s in b["stmts"]):
+                out.append(i)
+        return sorted(out)
+
+    for parent, limit_arg in targets:
+        cname = parent + "::{check closure}"
+        ids = check_body(parent)
         if not ids:
             rule.bad("%s/missing" % cname, "anchor missing: " + cname, kind="anchor-missing")
             continue
@@ -485,7 +501,7 @@ def run_r8(ctx, rule):
                 detail = guards.show_fact(f, g[1])
         rule.check(good, "%s/ok-only-within-limit" % short(parent), "%s accepts a value only when value <= limit (inclusive) [%s]" % (short(parent), detail), f.loc())
     # lit: a defining literal must be even and non-zero
-    ids = [i for i in facts.fns if norm(i) == TOK_A + "lit::{closure#1}"]
+    ids = check_body(TOK_A + "lit")
     if ids:
         f = facts.fns[ids[0]]
         sy = sym(f)
